@@ -389,7 +389,9 @@ Expected == /\ (stage = 2 /\ inst.fam \in {"dimer", "ferro", "mg", "chain2"}) =>
      P1  max |psi.norm_test()| ~ 0 and psi.norm = 1                      (normalised, canonical form)
      P2  psi.get_total_charge() = q                                      (exact; not for diag_method ED_all)
      P3  <psi|H|psi> = E + E_trunc(last update)                          (reported energy vs. expectation value;
-         while a mixer is still active at the end only |<psi|H|psi> - E| <= max |E_trunc| of the last sweep)
+         not claimed for a run that stops while a mixer is still enabled: its last environments were built from
+         perturbed, non-canonical tensors, so E and E_trunc are not expectation values then; P4 is then claimed for
+         <psi|H|psi> only)
      P4  E >= E0 - tol  and  <psi|H|psi> >= E0 - tol                     (variational bound in the sector)
      infinite chains ("chain2", engines VUMPS / iDMRG; e0 = E0cellx4 / 8 the exact energy per site):
      V1  max |psi.norm_test()| ~ 0          V2  E_reported = H_MPO.expectation_value(psi) (energy per site)
